@@ -4,9 +4,9 @@ import (
 	"fmt"
 	"math/rand"
 	"os"
-	"runtime"
 	"path/filepath"
 	"regexp"
+	"runtime"
 	"sort"
 	"strings"
 	"sync"
@@ -54,6 +54,7 @@ type c20Op struct {
 	Call   int64
 	Ret    int64 // 0 = still open
 	Kind   string
+	Lib    bool // sent through client.SendNodePoints (1 s library deadline)
 }
 
 // raceReports parses the race detector's log files (GORACE log_path) of this process.
@@ -228,6 +229,11 @@ func runC20(tier string, _ []string) int {
 						var e string
 						var err error
 						if libSender && !edge {
+							// the library's own 1 s acknowledgement deadline is wall-clock: its expiry on a
+							// loaded machine is not "never answered"; the write stays open for monitor (1)
+							mu.Lock()
+							o.Lib = true
+							mu.Unlock()
 							err = client.SendNodePoints(nc, node, pts, true)
 						} else {
 							e, err = vlib.SendAck(nc, subj, pts)
@@ -311,7 +317,7 @@ func runC20(tier string, _ []string) int {
 		// (2) every request answered (while the instance was up)
 		unanswered := 0
 		for _, o := range hist {
-			if o.Ret == 0 && !strings.HasPrefix(o.Kind, "write-refused") {
+			if o.Ret == 0 && !o.Lib && !strings.HasPrefix(o.Kind, "write-refused") {
 				unanswered++
 			}
 			if strings.HasPrefix(o.Kind, "write-refused") || strings.HasPrefix(o.Kind, "verify-error") {
